@@ -58,6 +58,12 @@ func createExecHandler(killTimeout time.Duration) interp.ExecHandlerFunc {
 			}
 
 			err = cmd.Wait()
+
+			if ctx.Err() != nil {
+				// The command was canceled: no process of its group may outlive it (e.g. background children that
+				// ignore the interrupt and do not hold the output pipes would otherwise live until the kill timeout)
+				_ = syscall.Kill(-cmd.Process.Pid, syscall.SIGKILL)
+			}
 		}
 
 		switch x := err.(type) {
